@@ -105,7 +105,8 @@ def mfpt_case(draw, max_n=8):
     ch = draw(R.chain(max_n=max_n))
     return {"chain": ch, "container": draw(st.sampled_from(R.CONTAINERS)),
             "sinks": draw(sink_set(ch["n"])), "snk_form": draw(st.sampled_from(R.SET_FORMS)),
-            "lag": draw(R.lag_strategy()), "pops": draw(st.sampled_from(["none", "given"]))}
+            "lag": draw(R.lag_strategy()), "pops": draw(st.sampled_from(["none", "given"])),
+            "style": draw(st.sampled_from(["keyword", "positional"]))}
 
 
 @st.composite
@@ -113,7 +114,7 @@ def allpairs_case(draw, max_n=8):
     ch = draw(R.chain(max_n=max_n))
     return {"chain": ch, "container": draw(st.sampled_from(R.CONTAINERS)),
             "lag": draw(R.lag_strategy()), "pops": draw(st.sampled_from(["none", "given"])),
-            "snk_form": draw(st.sampled_from(R.SET_FORMS))}
+            "snk_form": draw(st.sampled_from(R.SET_FORMS)), "style": draw(st.sampled_from(["keyword", "positional"]))}
 
 
 @st.composite
@@ -217,17 +218,21 @@ def run_mfpt_sinks(case):
     kw = {}
     if case["pops"] == "given":
         kw["populations"] = R.ref_stationary(T)
-    m = _quiet(tpt.mfpts, X, sinks=R.set_arg(snk, case["snk_form"]), lagtime=lag, **kw)
+    if case.get("style") == "positional":
+        # documented order: mfpts(tprob, sinks, populations, lagtime)
+        m = _quiet(tpt.mfpts, X, R.set_arg(snk, case["snk_form"]), kw.get("populations"), lag)
+    else:
+        m = _quiet(tpt.mfpts, X, sinks=R.set_arg(snk, case["snk_form"]), lagtime=lag, **kw)
     m = _vec(m, n, "mfpts(sinks)")
     free = check_mfpt(T, m, snk, lag)
     nt = n >= 4 and len(snk) >= 2 and len(free) >= 2
     return Info(nt, _classes(case, ["n_sinks=%s" % min(len(snk), 3), "non_sinks=%s" % min(len(free), 2),
                                     "lag=%s" % _lagclass(lag), "pops=" + case["pops"],
-                                    "snk_form=" + case["snk_form"]]))
+                                    "snk_form=" + case["snk_form"], "style=" + case.get("style", "keyword")]))
 
 
 def _lagclass(lag):
-    return "int" if isinstance(lag, int) else "<1" if lag < 1 else ">=1"
+    return "int" if isinstance(lag, int) else "<=1e-4" if lag <= 1e-4 else "<1" if lag < 1 else ">=1e6" if lag >= 1e6 else ">=1"
 
 
 # --------------------------------------------------------------------------
@@ -251,7 +256,10 @@ def run_allpairs(case):
     kw = {}
     if case["pops"] == "given":
         kw["populations"] = R.ref_stationary(T)
-    A = _quiet(tpt.mfpts, X, lagtime=lag, **kw)
+    if case.get("style") == "positional":
+        A = _quiet(tpt.mfpts, X, None, kw.get("populations"), lag)
+    else:
+        A = _quiet(tpt.mfpts, X, lagtime=lag, **kw)
     require(isinstance(A, np.ndarray), "all-pairs mfpts is not an ndarray", type=type(A).__name__)
     A = _mat(A, n, "all-pairs mfpts")
     tols = allpairs_tol(T, lag)
@@ -384,6 +392,68 @@ def run_nomod(case):
     return Info(n >= 4, _classes(case, ["pops=" + case["pops"], "form=" + form]))
 
 
+
+# --------------------------------------------------------------------------
+# clause 7: a second call on the SAME container object after it was refilled in place with another chain
+
+REFILL_CONT = ["ndarray", "ndarray_F", "lil", "csr_expl0"]
+
+
+@st.composite
+def refill_case(draw, max_n=7):
+    ch = draw(R.chain(max_n=max_n))
+    ch2 = draw(R.chain(min_n=ch["n"], max_n=ch["n"]))
+    src, snk = draw(R.disjoint_sets(ch["n"]))
+    return {"chain": ch, "chain2": ch2, "sources": src, "sinks": snk, "container": draw(st.sampled_from(REFILL_CONT)),
+            "lag": draw(R.lag_strategy()), "first": draw(st.sampled_from(["committors", "mfpts_sinks", "mfpts_all"])),
+            "second": draw(st.sampled_from(["committors", "mfpts_sinks", "mfpts_all"]))}
+
+
+def _refill(X, T2, cont):
+    if cont.startswith("ndarray"):
+        X[...] = T2
+    elif cont == "lil":
+        with warnings.catch_warnings():
+            warnings.simplefilter("ignore")
+            for i in range(T2.shape[0]):
+                for j in range(T2.shape[1]):
+                    X[i, j] = T2[i, j]
+    else:                       # csr storing every entry: rewrite the value buffer
+        X.data[...] = T2.ravel()
+    require(bool(np.array_equal(R.dense_of(X), T2)), "harness: refill failed")
+
+
+def run_refill(case):
+    T, T2 = R.build_T(case["chain"]), R.build_T(case["chain2"])
+    n = T.shape[0]
+    X = R.to_container(T, case["container"])
+    src, snk, lag = case["sources"], case["sinks"], case["lag"]
+
+    def call(which):
+        if which == "committors":
+            return _vec(_quiet(tpt.committors, X, list(src), list(snk)), n, "committors")
+        if which == "mfpts_sinks":
+            return _vec(_quiet(tpt.mfpts, X, sinks=list(snk), lagtime=lag), n, "mfpts(sinks)")
+        A = _quiet(tpt.mfpts, X, lagtime=lag)
+        return _mat(A, n, "all-pairs mfpts")
+    first = call(case["first"])
+    kept = np.array(first, copy=True)
+    _refill(X, T2, case["container"])
+    second = call(case["second"])
+    require(np.array_equal(first, kept), "the result of the first call changed when the function was called again",
+            first=kept.tolist(), now=np.asarray(first).tolist())
+    if case["second"] == "committors":
+        check_committor(T2, second, src, snk)
+    elif case["second"] == "mfpts_sinks":
+        check_mfpt(T2, second, snk, lag)
+    else:
+        fresh = _mat(_quiet(tpt.mfpts, R.to_container(T2, case["container"]), lagtime=lag), n, "all-pairs mfpts")
+        tol = float(np.max(allpairs_tol(T2, lag)))
+        require(W("refill_A", second - fresh, SAME_TOL * float(np.max(np.abs(fresh))) + tol),
+                "all-pairs mfpts on a refilled container differ from those of a fresh container with the same values",
+                refilled=second.tolist(), fresh=fresh.tolist())
+    return Info(n >= 4 and not np.array_equal(T, T2), _classes(case, ["first=" + case["first"], "second=" + case["second"]]))
+
 # --------------------------------------------------------------------------
 # exhaustive sub-domains (thorough): every source/sink pair, every sink set, on three fixed chains
 
@@ -495,6 +565,8 @@ CLAUSES = [
            doc="every sparse container gives the ndarray values"),
     Clause("inputs_unmodified", nomod_case(), run_nomod, quick=800, thorough=5000,
            doc="tprob, sources, sinks, populations are left as passed"),
+    Clause("second_call_refilled", refill_case(), run_refill, quick=600, thorough=5000,
+           doc="call, refill the same container object in place with another chain, call again: values are those of the new chain"),
     Clause("committor_first_step_large", committor_case(max_n=25), run_committor, quick=0, thorough=2500),
     Clause("mfpt_sinks_first_step_large", mfpt_case(max_n=25), run_mfpt_sinks, quick=0, thorough=2500),
     Clause("mfpt_allpairs_columns_large", allpairs_case(max_n=16), run_allpairs, quick=0, thorough=800),
